@@ -7,6 +7,7 @@
    precondition (compassDirection_asserts_ok, path-sensitive: true iff the call returns); it is proved equivalent
    to `distinct`, the hypothesis every statement about compassDirection below carries. *)
 From Coq Require Import ZArith QArith Lqa Lia.
+From Adapt Require Dialect.SepPairModel.
 From Adapt Require Import Num.Qaux Gen.Compass.
 Local Open Scope Q_scope.
 
@@ -150,6 +151,17 @@ Proof.
     repeat split; intros; try discriminate; try reflexivity; try lra; try tauto;
     try (match goal with H : _ \/ _ |- _ => destruct H as [[? ?]|[? ?]]; lra end).
 Qed.
+
+(* link to C18's hand-written model (Dialect/SepPairModel.v, tied to the compiled SepMatrix / Compass::cardFlip by C18's correspondence):
+   card_flip used in the statements above is that model's cardFlip under the enumerator numbering *)
+Definition card_to_Z (d : Adapt.Dialect.SepPairModel.CardinalDir) : Z :=
+  match d with
+  | Adapt.Dialect.SepPairModel.CEAST => 0 | Adapt.Dialect.SepPairModel.CSOUTH => 1
+  | Adapt.Dialect.SepPairModel.CWEST => 2 | Adapt.Dialect.SepPairModel.CNORTH => 3
+  end%Z.
+Theorem card_flip_is_model_cardFlip d :
+  card_to_Z (Adapt.Dialect.SepPairModel.cardFlip d) = card_flip (card_to_Z d) /\ is_card (card_to_Z d).
+Proof. destruct d; vm_compute; repeat split; intros; discriminate. Qed.
 
 Example compass_nonvacuous :
   distinct (mkpt 0 0) (mkpt 3 (-1)) /\ cardinalDirection (mkpt 0 0) (mkpt 3 (-1)) = 0%Z /\
